@@ -80,7 +80,7 @@ CHECKS = {
              "project states from Lint.tla / Inventory.tla are materialised and exported; TLC checks one File section "
              "per covered file and no other, unique SPDXIDs matched one-to-one by DESCRIBES, true SHA-1, exact "
              "LicenseInfoInFile / FileCopyrightText, LicenseConcluded logically equivalent to the conjunction of the "
-             "file's expressions under every truth assignment, and every LicenseRef- with its text.",
+             "file's expressions under every truth assignment, and every LicenseRef- with its text. In addition Workflow.tla behaviours (spdx interleaved with annotate / download / convert-dep5) are replayed: the File sections of every document must be exactly what lint attributes to the files at that point.",
         note="SHA-1 values come from hashlib (environment fact); the tag-value and expression readers are written for this "
              "check; header fields are only required to be present.",
         ref="5/C18"),
